@@ -83,7 +83,7 @@ def writers_under_race_detector(rep, scratch, tier):
     (optimize), whose mistakes change the stored bytes only on some schedules."""
     import re
     from . import core
-    nv = 3000 if tier == "quick" else 20000
+    nv = 3000 if tier == "quick" else 6000
     rows = [{b"a": b"v%05d" % (i % nv), b"b": b"%d" % (i % 7)} for i in range(nv * 2)]
     ds = dp.Dataset("rw", rows, "many-bitmaps")
     lines = ds.lines()
